@@ -301,6 +301,20 @@ pub fn gen(rng: &mut Rng, tier: Tier, out: &mut Vec<String>) {
             out.push(format!("wrap {} {} {}", h32(a), h32(mx), h32(mn)));
         }
     }
+    // angles a hair below min (and one or two interval lengths further down) for intervals whose ends have different
+    // magnitudes: `max − min` is then inexact, the remainder rounds up to the full length and `min + length`
+    // lands an ulp ABOVE max (recorded finding `wrap-above-max`)
+    for _ in 0..(if q { 600 } else { 20_000 }) {
+        let mn = rng.f32_in(-1.0, 1.0) * 10f32.powf(rng.f32_in(-3.0, 3.0));
+        let mx = mn + rng.unit().max(1e-3) * 10f32.powf(rng.f32_in(-3.0, 3.0));
+        if !(mn < mx) {
+            continue;
+        }
+        let span = mx - mn;
+        let below = |x: f32| f32::from_bits(if x > 0.0 { x.to_bits() - 1 } else if x < 0.0 { x.to_bits() + 1 } else { 0x8000_0001 });
+        let a = match rng.below(3) { 0 => below(mn), 1 => below(mn - span), _ => below(mn - 2.0 * span) };
+        out.push(format!("wrap {} {} {}", h32(a), h32(mn), h32(mx)));
+    }
     // wrap at the interval ends, through every unit constructor: inputs bit-equal to max and min,
     // one and two ulps either side, and min + k*span for whole k, on intervals whose limits and
     // spans are exact in the unit used (the library itself wraps into [-1/2, 1/2) and [0, 1) turn)
